@@ -71,12 +71,17 @@ class SemWorld:
             elif '__len__' in cls.__dict__:
                 del cls.__len__
         self.inst = {'a1': SvcA(), 'a2': SvcA(), 'b1': SvcB()}
+        if p.get('inherited'):
+            # ONE limited method, defined on a base class and inherited by two concrete classes: with scope 'class' each concrete class is a scope of its own
+            base = type('SvcBase', (), {'work': mk(names[0])})
+            ca, cb = type('SvcA', (base,), {}), type('SvcB', (base,), {})
+            self.inst = {'a1': ca(), 'a2': ca(), 'b1': cb()}
 
     def key_of(self, inst):
         """harness's own notion of the scope key"""
         p = self.spec['p']
         o = self.inst[inst]
-        name = p['names'][0 if isinstance(o, SvcA) else 1] or 'work'
+        name = p['names'][0 if (type(o).__name__ == 'SvcA' or p.get('inherited')) else 1] or 'work'
         if p['scope'] == 'global':
             return name
         if p['scope'] == 'class':
@@ -254,6 +259,8 @@ def families(tier):
                 continue
         p = dict(L=L, scope=scope, names=names, callers=caller_sets[cs], lax=lax, sem_timeout=st, cancel=cancel, retries=1 if cs == 'overrun' else 0, timeout=1.0, rounds=2)
         out.append(dict(prop='C20', family='c20.semaphore', id=f'c20/L{L}-{scope}-{names[0]}{names[1]}-{cs}-lax{int(lax)}-st{st}-x{cancel}', cfg=cfg, p=p))
+        if scope == 'class' and cs in ('2cls', '4mix') and cancel is None and names[0] == names[1]:
+            out.append(dict(prop='C20', family='c20.semaphore_on_an_inherited_method', id=f'c20/inherit-L{L}-{names[0]}-{cs}-lax{int(lax)}-st{st}', cfg=cfg, p=dict(p, inherited=True)))
         if scope != 'global' and cs in ('2inst', '2cls', '3same', '4mix') and cancel is None and (deep or names != ('s', 't')):
             out.append(dict(prop='C20', family='c20.semaphore_on_falsy_objects', id=f'c20/falsy-L{L}-{scope}-{names[0]}{names[1]}-{cs}-lax{int(lax)}-st{st}', cfg=cfg, p=dict(p, falsy=True)))
     return out
